@@ -87,6 +87,31 @@ def check_program(L: harness.Loaded, prog: Dict[str, Any], part: Part) -> None:
             if exc is None and pdu2 != pdu:
                 part.violation(f"C01/{tag}/service-encodes-differently", {"program": prog_case(prog), "values": jval(values)},
                                f"encode_request {pdu2.hex()} vs Request.encode {pdu.hex()}")
+            # DiagLayer.decode of the service's own request (needs a constant prefix for the dispatch)
+            if exc is None and prog["params"] and prog["params"][0]["t"] == "CODED-CONST" and prog["tags"][0] == "prog":
+                try:
+                    _, ref_out, e = L.interp.encode(prog["pid"], values)
+                except (refodx.Reject, refodx.DontCare):
+                    return
+                if e.overlap:
+                    return
+                import warnings
+                with warnings.catch_warnings():
+                    warnings.simplefilter("ignore")
+                    try:
+                        msgs = L.layer.decode(pdu)
+                    except Exception as ex:  # noqa
+                        part.violation(f"C01/{tag}/layer-decode-of-own-request-raises", {"program": prog_case(prog), "values": jval(values)},
+                                       f"{pdu.hex()}: {type(ex).__name__}: {str(ex)[:120]}")
+                        return
+                mine = [m for m in msgs if m.coding_object is msg]
+                part.count("via_layer_decode")
+                if not mine:
+                    part.violation(f"C01/{tag}/layer-decode-does-not-find-own-request", {"program": prog_case(prog), "values": jval(values)},
+                                   f"{pdu.hex()} attributed to {[m.coding_object.short_name for m in msgs]}")
+                elif not harness.same_value(ref_out, mine[0].param_dict):
+                    part.violation(f"C01/{tag}/layer-decode-differs", {"program": prog_case(prog), "values": jval(values)},
+                                   f"{pdu.hex()} -> {show(mine[0].param_dict)} expected {show(ref_out)}")
 
 
 unit_fn = make_unit_fn(PROPERTY, check_program)
